@@ -61,7 +61,11 @@ func (q c11Req) wire() []byte {
 	}
 	fmt.Fprintf(&b, "%s %s HTTP/1.1\r\nHost: h\r\n", q.method, q.uri())
 	for _, h := range q.headers {
-		fmt.Fprintf(&b, "%s: %s\r\n", h[0], h[1])
+		name := h[0]
+		if len(h[1])%2 == 0 && name != "X-Req-Conf" {
+			name = strings.ToLower(name) // on the wire in lower case: the handler must still see the canonical name
+		}
+		fmt.Fprintf(&b, "%s: %s\r\n", name, h[1])
 	}
 	if len(q.cookies) > 0 {
 		var cs []string
@@ -223,6 +227,10 @@ func init() {
 				ctx.QueryArgs().Set("dirtyq", "1")
 				ctx.PostArgs().Set("dirtyp", "1")
 				ctx.Request.SetBodyString("dirty-request-body")
+				// ... and the modes of the request header object
+				ctx.Request.Header.DisableNormalizing()
+				ctx.Request.Header.DisableSpecialHeader()
+				ctx.Request.Header.SetNoDefaultContentType(true)
 			}
 			var expected []c11Obs
 			respNote := ""
